@@ -26,7 +26,7 @@ Definition ext (l : list Q) (p : Q) : Q := Qmax (Qmax (Qabs (nthQ l 0)) (Qabs (n
 Definition fbscale (fb : option (Q * Q)) : Q := match fb with Some (lo, hi) => Qabs lo + Qabs hi | None => 0 end.
 
 (* tolerance on values: 2^-34 of the scale (bound of |f| on the grid box and at the point, plus the
-   magnitude of the function bounds).  Measured distance on the unchanged tree: <= 2^-44 of it. *)
+   magnitude of the function bounds; no absolute term: the comparison is covariant under scaling of the values).  Measured distance on the unchanged tree: <= 2^-44 of it. *)
 Definition val_tol : Q := pow2 (-34).
 
 Fixpoint forallb2 {A B} (p : A -> B -> bool) (l1 : list A) (l2 : list B) : bool :=
@@ -69,7 +69,7 @@ Definition check1 (xl : list Q) (fb : option (Q * Q)) (nbe : bool) (cs : list Q)
            (impl : list (Z * Q * list Z)) (cells_f nodes_f : list Z) : bool :=
   let x := nthQ xl in let top := topof xl in
   let '(tr, st) := trace1 fb nbe x top (f1 cs) empty pts in
-  forallb2 (fun pm i => step_ok Z.eqb (b1 cs (ext xl (fst pm)) + fbscale fb + 1) (axis_code xl (fst pm)) (snd pm) i) (combine pts tr) impl
+  forallb2 (fun pm i => step_ok Z.eqb (b1 cs (ext xl (fst pm)) + fbscale fb) (axis_code xl (fst pm)) (snd pm) i) (combine pts tr) impl
   && (Z.of_nat (length pts) =? Z.of_nat (length tr))%Z
   && same_keys Z.eqb (map fst (cells st)) cells_f
   && same_keys Z.eqb (map fst (data st)) nodes_f.
@@ -77,7 +77,7 @@ Definition check1 (xl : list Q) (fb : option (Q * Q)) (nbe : bool) (cs : list Q)
 Definition check2 (xl yl : list Q) (fb : option (Q * Q)) (nbe : bool) (cs : list (list Q)) (pts : list (Q * Q))
            (impl : list (Z * Q * list (Z * Z))) (cells_f nodes_f : list (Z * Z)) : bool :=
   let '(tr, st) := trace2 fb nbe (nthQ xl) (nthQ yl) (topof xl) (topof yl) (f2 cs) empty pts in
-  forallb2 (fun pm i => step_ok eqb2 (b2 cs (ext xl (fst (fst pm))) (ext yl (snd (fst pm))) + fbscale fb + 1)
+  forallb2 (fun pm i => step_ok eqb2 (b2 cs (ext xl (fst (fst pm))) (ext yl (snd (fst pm))) + fbscale fb)
                                      (axis_code xl (fst (fst pm)), axis_code yl (snd (fst pm))) (snd pm) i)
            (combine pts tr) impl
   && (Z.of_nat (length pts) =? Z.of_nat (length tr))%Z
@@ -88,7 +88,7 @@ Definition check3 (xl yl zl : list Q) (fb : option (Q * Q)) (nbe : bool) (cs : l
            (pts : list (Q * Q * Q)) (impl : list (Z * Q * list (Z * Z * Z))) (cells_f nodes_f : list (Z * Z * Z)) : bool :=
   let '(tr, st) := trace3 fb nbe (nthQ xl) (nthQ yl) (nthQ zl) (topof xl) (topof yl) (topof zl) (f3 cs) empty pts in
   forallb2 (fun pm i => let '(px, py, pz) := fst pm in
-                        step_ok eqb3 (b3 cs (ext xl px) (ext yl py) (ext zl pz) + fbscale fb + 1)
+                        step_ok eqb3 (b3 cs (ext xl px) (ext yl py) (ext zl pz) + fbscale fb)
                                      (axis_code xl px, axis_code yl py, axis_code zl pz) (snd pm) i)
            (combine pts tr) impl
   && (Z.of_nat (length pts) =? Z.of_nat (length tr))%Z
